@@ -10,7 +10,7 @@ LEVEL = "model_checking"
 FUNCTIONS = [("pandapower.build_gen", "_build_gen_ppc"), ("pandapower.build_gen", "_build_pp_gen"), ("pandapower.build_gen", "_build_pp_ext_grid"),
              ("pandapower.build_gen", "_build_pp_pq_element"), ("pandapower.build_gen", "add_p_constraints"), ("pandapower.build_gen", "add_q_constraints"),
              ("pandapower.build_gen", "_check_gen_vm_limits"), ("pandapower.build_gen", "_enforce_controllable_vm_pu_p_mw"),
-             ("pandapower.results_bus", "write_pq_results_to_element"), ("pandapower.pypower.opf_setup", "opf_setup"), ("pandapower.pypower.makeBdc", "makeBdc")]
+             ("pandapower.results_bus", "write_pq_results_to_element"), ("pandapower.pypower.opf_setup", "opf_setup"), ("pandapower.build_branch", "_calc_line_parameter"), ("pandapower.build_branch", "_calc_trafo_parameter"), ("pandapower.pypower.makeBdc", "makeBdc")]
 STUBS = ["opf_model (the container opf_setup fills) -> a recorder of the variable bounds and linear constraint blocks", "the interior point solver's contract: on convergence the returned point lies inside the ppc box (PMIN<=PG<=PMAX, QMIN<=QG<=QMAX, "
          "VMIN<=VM<=VMAX); the point is symbolic and constrained only by that box"]
 ASSUMPTIONS = ["declared limits symbolic with min <= max; delta = 1e-10 (the repository's OPF tolerance widening)",
@@ -194,8 +194,42 @@ def make_dc_branch_limits(layout):
     return fn
 
 
+def make_branch_ratings():
+    """the branch flow limit handed to the OPF (RATE_A in MVA) is the declared loading limit of the element: max_loading_percent of the
+    permissible current max_i_ka * df * parallel at rated voltage (lines) resp. of sn_mva * df * parallel (transformers) - the same
+    quantities res_line / res_trafo.loading_percent is measured against"""
+    def fn(ctx):
+        from . import c02
+        from pandapower.pypower.idx_brch import RATE_A
+        from pandapower.pypower.idx_bus import BASE_KV
+        bb = ctx.load("pandapower.build_branch")
+        net = copy.deepcopy(c02._line_net())
+        net._options["mode"] = "opf"
+        L = {c: ctx.var("line_" + c, lo, hi) for c, (lo, hi) in {"max_i_ka": (0.05, 2.), "df": (0.1, 1.), "parallel": (1., 4.), "max_loading_percent": (10., 150.)}.items()}
+        for c, v in L.items():
+            setcol(ctx, net.line, c, [v])
+        vn = float(net.bus.vn_kv.at[net.line.from_bus.values[0]])      # the rated voltage of the line's bus (concrete in the template)
+        ppc = {"bus": ctx.obj(net._ppc["bus"]), "branch": ctx.obj(net._ppc["branch"].real), "baseMVA": net.sn_mva}
+        bb._calc_line_parameter(net, ppc)
+        want = L["max_loading_percent"] / 100 * (L["max_i_ka"] * L["df"] * L["parallel"]) * vn
+        got = ppc["branch"][0, RATE_A]
+        ctx.close("line_flow_limit_is_the_declared_share_of_the_derated_current_rating", got * got, 3 * want * want, 1e-9)
+        tn = copy.deepcopy(c02._trafo_net("Ratio", "hv", "pi", True))
+        tn._options["mode"] = "opf"
+        T = {c: ctx.var("trafo_" + c, lo, hi) for c, (lo, hi) in {"sn_mva": (1., 400.), "df": (0.1, 1.), "parallel": (1., 3.), "max_loading_percent": (10., 150.)}.items()}
+        for c, v in T.items():
+            setcol(ctx, tn.trafo, c, [v])
+        ppc2 = {"bus": ctx.obj(tn._ppc["bus"]), "branch": ctx.obj(tn._ppc["branch"].real), "baseMVA": tn.sn_mva}
+        bb._calc_trafo_parameter(tn, ppc2)
+        f, t = tn._pd2ppc_lookups["branch"]["trafo"]
+        ctx.eq("transformer_flow_limit_is_the_declared_share_of_the_derated_rating", ppc2["branch"][f, RATE_A],
+               T["max_loading_percent"] / 100 * T["sn_mva"] * T["df"] * T["parallel"])
+    return fn
+
+
 def instances(tier):
     out = [Inst("limits_round_trip", make_fn(), nvars=80, samples=2, timeout_ms=60000, meta=dict(elements="ext_grid, gen x2, sgen, load, storage"))]
+    out.append(Inst("branch_flow_limits", make_branch_ratings(), nvars=24, samples=3, raises=(UserWarning,), meta=dict(part="branch loading limits: RATE_A of lines and transformers")))
     lays = {"line_and_phase_shifter": [(0, 1, "l"), (1, 2, "t")], "phase_shifter_reversed": [(0, 1, "l"), (2, 1, "t")]}
     if tier == "thorough":
         lays["meshed_with_unlimited_branch"] = [(0, 1, "l"), (1, 2, "t"), (0, 2, "free")]
